@@ -5,6 +5,7 @@ import SignaloModel.Proofs.SmoothProofs
 
 Property theorems for C13 (statements are printed by `#check`, axioms by `#check @Registry.emaRec_snoc
 #check @Registry.ema_state
+#check @Registry.ema_registry_correct
 #print axioms`;
 `bin/check C13` re-elaborates this file on every run and audits the axiom lists).
 -/
@@ -21,3 +22,4 @@ open SignaloModel
 #print axioms Smooth.emaStep_in
 #print axioms Registry.emaRec_snoc
 #print axioms Registry.ema_state
+#print axioms Registry.ema_registry_correct
